@@ -8,7 +8,7 @@
 From Coq Require Import List NArith ZArith Bool Lia Permutation.
 From PM Require Import Base.Bytes Base.Outcome Gen.GenConsts Model.ScriptAst Model.Enqueue Model.Script Model.Device Model.DevHarness
                        Model.Client Model.CliWorld Model.Daemon Spec.Proto
-                       Proofs.ClientProofs Proofs.ClientStream Proofs.DeviceInv Proofs.DeviceRun Proofs.DaemonLedger.
+                       Proofs.ClientProofs Proofs.ClientProto Proofs.ClientStream Proofs.DeviceInv Proofs.DeviceRun Proofs.DaemonLedger.
 Import ListNotations.
 Local Open Scope Z_scope.
 
@@ -31,8 +31,12 @@ Lemma cnt_notin id l : ~ In id l -> cnt id l = 0.
 Proof. intros H. unfold cnt. apply (count_occ_not_In Z.eq_dec) in H. now rewrite H. Qed.
 
 (* the client-layer part of the invariant, relative to a list P of completions emitted but not yet delivered *)
+(* a client record is well formed, and its output so far holds exactly one terminal reply per line handed to
+   _parse_input, except for the command still in progress *)
+Definition cli_ok (x : dcli) : Prop :=
+  cmd_inv (dc x) /\ exists toks, cl_out (dc x) = render toks /\ (terminals toks + b2n (busy (dc x)) = dc_lines x)%nat.
 Definition CInv (P : list Z) (devs : list device) (cl : list dcli) : Prop :=
-  Forall (fun x => cmd_inv (dc x) /\ pend (dc x) = cnt (cid x) (P ++ qall devs)) cl.
+  Forall (fun x => cli_ok x /\ pend (dc x) = cnt (cid x) (P ++ qall devs)) cl.
 
 Lemma pend_pos_cmd c : cmd_inv c -> 0 < pend c -> busy c = true.
 Proof. unfold pend, busy. destruct (cl_cmd c); [reflexivity|lia]. Qed.
@@ -50,15 +54,25 @@ Section P.
 
   (* _act_finish with a command in progress: the counter goes down by one, the record stays well formed *)
   Lemma act_finish_pend c store err msg : cmd_inv c -> busy c = true ->
-    exists c', act_finish ranged_sorted c store err msg = Ok c' /\ cmd_inv c' /\ pend c' = pend c - 1 /\ cl_id c' = cl_id c.
+    exists c' d, act_finish ranged_sorted c store err msg = Ok c' /\ cmd_inv c' /\ pend c' = pend c - 1 /\ cl_id c' = cl_id c /\
+      cl_out c' = cl_out c ++ render d /\ (terminals d + b2n (busy c') = b2n (busy c))%nat.
   Proof.
-    intros I B. destruct (act_finish_toks expand_str ranged_sorted ranged_plain sorted c store err msg I B) as (c' & d & E & _ & _ & _ & I' & _).
-    exists c'. split; [exact E|]. split; [exact I'|]. split; [|exact (act_finish_id ranged_sorted _ _ _ _ _ E)].
+    intros I B. destruct (act_finish_toks expand_str ranged_sorted ranged_plain sorted c store err msg I B) as (c' & d & E & Ho & _ & Ht & I' & _).
+    exists c', d. split; [exact E|]. split; [exact I'|]. split; [|split; [exact (act_finish_id ranged_sorted _ _ _ _ _ E)|split; [exact Ho|exact Ht]]].
     unfold busy in B. destruct (cl_cmd c) as [k|] eqn:Ek; [|discriminate].
     destruct (act_finish_spec ranged_sorted c store err msg c' k Ek E) as [H1 H2].
     unfold pend. rewrite Ek. destruct (Z.eq_dec (k_pending k - 1) 0) as [E0|E0].
     - destruct (H2 E0) as (reply & _ & ->). cbn. lia.
     - rewrite (H1 E0). cbn. destruct (Z.eqb err ACT_ESUCCESS); cbn; reflexivity.
+  Qed.
+
+  (* appending tokens to a record's output through set_dc *)
+  Lemma cli_ok_set_dc x c' d :
+    cli_ok x -> cmd_inv c' -> cl_out c' = cl_out (dc x) ++ render d -> (terminals d + b2n (busy c') = b2n (busy (dc x)))%nat ->
+    cli_ok (set_dc c' x).
+  Proof.
+    intros [_ (toks & Ho & Ht)] I' Ho' Ht'. split; [exact I'|]. exists (toks ++ d). cbn [set_dc dc dc_lines].
+    split; [rewrite Ho', Ho, render_app; reflexivity|]. rewrite terminals_app. lia.
   Qed.
 
   Lemma find_cli_none l id : forall n, find_cli l id n = None -> ~ In id (map cid l).
@@ -82,7 +96,7 @@ Section P.
 
   Lemma CInv_deliver P devs : forall cl j x y,
     nth_error cl j = Some x -> cid y = cid x -> NoDup (map cid cl) ->
-    cmd_inv (dc y) -> pend (dc y) = pend (dc x) - 1 ->
+    cli_ok y -> pend (dc y) = pend (dc x) - 1 ->
     CInv (cid x :: P) devs cl -> CInv P devs (upd_nth cl j (fun _ => y)).
   Proof.
     unfold CInv. induction cl as [|a r IH]; intros [|j] x y Hn Hy Hnd Iy Py H; cbn [nth_error upd_nth] in *; try discriminate.
@@ -100,13 +114,22 @@ Section P.
 
   (* a callback that leaves the command alone *)
   Lemma CInv_same_cmd P devs : forall cl j x y,
-    nth_error cl j = Some x -> cid y = cid x -> cl_cmd (dc y) = cl_cmd (dc x) ->
+    nth_error cl j = Some x -> cid y = cid x -> cl_cmd (dc y) = cl_cmd (dc x) -> cli_ok y ->
     CInv P devs cl -> CInv P devs (upd_nth cl j (fun _ => y)).
   Proof.
-    unfold CInv. induction cl as [|a r IH]; intros [|j] x y Hn Hy Hc H; cbn in *; try discriminate.
+    unfold CInv. induction cl as [|a r IH]; intros [|j] x y Hn Hy Hc Hk H; cbn in *; try discriminate.
     - inversion Hn; subst a. inversion H as [|? ? [Hi Hp] Hr]; subst. constructor; [|exact Hr].
-      unfold cmd_inv, pend in *. rewrite Hc, Hy. auto.
+      split; [exact Hk|]. unfold pend in *. rewrite Hc, Hy. exact Hp.
     - inversion H as [|? ? Ha Hr]; subst. constructor; [exact Ha|]. eapply IH; eauto.
+  Qed.
+
+  Lemma cli_ok_info x (f : client -> client) code m :
+    (forall c, f c = emit (render [TLine code m]) c) -> is_terminal code = false -> cli_ok x -> cli_ok (set_dc (f (dc x)) x).
+  Proof.
+    intros Hf Hc Hx. destruct Hx as [Hi (toks & Ho & Ht)]. split.
+    - rewrite Hf. exact Hi.
+    - exists (toks ++ [TLine code m]). cbn [set_dc dc dc_lines]. rewrite Hf. cbn [emit cl_out]. split; [rewrite Ho, render_app; reflexivity|].
+      rewrite terminals_app. unfold terminals at 2. cbn [filter is_term_tok]. rewrite Hc. cbn [length]. unfold busy in *. cbn [emit cl_cmd]. lia.
   Qed.
 
   Definition set_clients (st : daemon) (l : list dcli) : daemon :=
@@ -131,26 +154,31 @@ Section P.
           destruct (find_cli (dm_clients st) id 0) as [[i x]|] eqn:Ef; [|exists st; repeat split; auto].
           destruct (find_cli_spec _ _ _ _ _ Ef) as (j & -> & Hn & Hc). cbn [Nat.add].
           eexists. split; [reflexivity|]. cbn [dm_clients dm_devs dm_seq dm_store dm_pipe dm_tel]. split.
-          + eapply CInv_same_cmd; [exact Hn|reflexivity|reflexivity|exact H].
+          + eapply CInv_same_cmd; [exact Hn|reflexivity|reflexivity| |exact H].
+            apply (cli_ok_info x (fun c => telemetry c msg) 305 msg); [intros c; unfold telemetry; now rewrite fmt_telemetry|reflexivity|].
+            unfold CInv in H. rewrite Forall_forall in H. apply H. eapply nth_error_In; exact Hn.
           + repeat split; auto. unfold ids. cbn [dm_clients]. apply (upd_nth_same cid _ j x); auto.
         - (* diagnostics *)
           cbn [completions flat_map app] in H.
           destruct (find_cli (dm_clients st) id 0) as [[i x]|] eqn:Ef; [|exists st; repeat split; auto].
           destruct (find_cli_spec _ _ _ _ _ Ef) as (j & -> & Hn & Hc). cbn [Nat.add].
           eexists. split; [reflexivity|]. cbn [dm_clients dm_devs dm_seq dm_store dm_pipe dm_tel]. split.
-          + eapply CInv_same_cmd; [exact Hn|reflexivity|reflexivity|exact H].
+          + eapply CInv_same_cmd; [exact Hn|reflexivity|reflexivity| |exact H].
+            apply (cli_ok_info x (fun c => diag c msg) 309 msg); [intros c; unfold diag; now rewrite fmt_diag|reflexivity|].
+            unfold CInv in H. rewrite Forall_forall in H. apply H. eapply nth_error_In; exact Hn.
           + repeat split; auto. unfold ids. cbn [dm_clients]. apply (upd_nth_same cid _ j x); auto.
         - (* completion *)
           cbn [completions flat_map app] in H.
           destruct (find_cli (dm_clients st) id 0) as [[i x]|] eqn:Ef.
           + destruct (find_cli_spec _ _ _ _ _ Ef) as (j & -> & Hn & Hc). cbn [Nat.add].
-            assert (Hx : cmd_inv (dc x) /\ pend (dc x) = cnt (cid x) ((id :: completions r ++ P) ++ qall (dm_devs st))).
+            assert (Hx : cli_ok x /\ pend (dc x) = cnt (cid x) ((id :: completions r ++ P) ++ qall (dm_devs st))).
             { unfold CInv in H. rewrite Forall_forall in H. apply H. eapply nth_error_In; exact Hn. }
-            destruct Hx as [Ix Px]. rewrite Hc in Px. cbn [app] in Px. rewrite cnt_cons_eq in Px.
+            destruct Hx as [Kx Px]. pose proof (proj1 Kx) as Ix. rewrite Hc in Px. cbn [app] in Px. rewrite cnt_cons_eq in Px.
             assert (Bx : busy (dc x) = true) by (apply pend_pos_cmd; [exact Ix|pose proof (cnt_nonneg id ((completions r ++ P) ++ qall (dm_devs st))); lia]).
-            destruct (act_finish_pend (dc x) (dm_store st) err msg Ix Bx) as (c' & E & I' & P' & Id').
+            destruct (act_finish_pend (dc x) (dm_store st) err msg Ix Bx) as (c' & dd & E & I' & P' & Id' & Ho' & Ht').
             rewrite E. eexists. split; [reflexivity|]. cbn [dm_clients dm_devs dm_seq dm_store dm_pipe dm_tel]. split.
             * subst id. eapply (CInv_deliver _ _ _ j x (set_dc c' x)); eauto.
+              eapply cli_ok_set_dc; eauto.
             * repeat split; auto. unfold ids. cbn [dm_clients]. apply (upd_nth_same cid _ j x); auto.
           + exists st. split; [reflexivity|]. split; [|repeat split; auto].
             eapply CInv_drop_other; [|exact H]. eapply find_cli_none; exact Ef. }
@@ -185,7 +213,7 @@ Section P.
     nth_error devs i = Some d -> completions evs ++ queued d' = queued d ->
     CInv [] devs cl -> CInv (completions evs) (upd_nth devs i (fun _ => d')) cl.
   Proof.
-    intros Hn Hf H. unfold CInv in *. eapply Forall_impl; [|exact H]. cbn. intros x [Hi Hp]. split; [exact Hi|].
+    intros Hn Hf H. unfold CInv in *. eapply Forall_impl; [|exact H]. cbn beta. intros x [Hi Hp]. split; [exact Hi|]. cbn [app] in Hp.
     rewrite Hp, cnt_app. pose proof (qall_upd (cid x) devs i d d' Hn) as Hq. rewrite <- Hf, cnt_app in Hq. lia.
   Qed.
 
@@ -250,5 +278,331 @@ Section P.
       split.
       { rewrite B3, A2. unfold st1. cbn [dm_devs]. clear. generalize (dm_devs st). intros l. revert i. induction l as [|a l IHl]; intros [|i]; cbn; auto. }
       exists (map (SysDev i) evs ++ new). now rewrite app_assoc.
+  Qed.
+
+  (* ---------------------------------------------------------------- the client pass *)
+  Notation parse := (parse_input expand_str ranged_sorted ranged_plain sorted).
+
+  Lemma parse_busy_q cf store c line cf' store' c' q k :
+    cl_cmd c = Some k -> parse cf store c line = (cf', store', c', q) -> q = [] /\ cl_cmd c' = Some k.
+  Proof.
+    intros Hk. unfold parse_input. destruct (CP_LINEMAX <=? _).
+    - intros H; inversion H; subst. split; [reflexivity|]. destruct (cl_quit _); cbn; exact Hk.
+    - rewrite Hk. intros H; inversion H; subst. split; [reflexivity|exact Hk].
+  Qed.
+
+  Lemma valid_com_In com : valid_com com = true -> In com (power_coms ++ query_coms).
+  Proof. unfold valid_com. intros H. apply existsb_exists in H as (x & Hx & E). apply Z.eqb_eq in E. now subst. Qed.
+
+  Lemma zip_edevs : forall devs specs, map cd_edev (zip_cdevs specs devs) = map edev_of devs.
+  Proof. induction devs as [|d r IH]; intros specs; cbn; [reflexivity|]. now rewrite IH. Qed.
+
+  (* dev_enqueue_actions: every device gets its share appended; the invariant of each device survives *)
+  Lemma enq_all_inv id tele args com tgts : In com (power_coms ++ query_coms) ->
+    forall devs, DevsInv devs ->
+    exists devs', enq_all devs (enqueue (map edev_of devs) com tgts) id tele args = Ok devs' /\ DevsInv devs' /\ length devs' = length devs /\
+      (forall i, cnt i (qall devs') = cnt i (qall devs) + (if Z.eq_dec i id then Z.of_nat (total (enqueue (map edev_of devs) com tgts)) else 0)) /\
+      incl (qall devs') (id :: qall devs).
+  Proof.
+    intros Hcom. induction devs as [|d r IH]; intros Hd; cbn [map enqueue enq_all].
+    - exists []. repeat split; auto. intros i. cbn. destruct (Z.eq_dec i id); lia. intros x [].
+    - inversion Hd as [|? ? [I Hrc] Hr]; subst.
+      destruct (fold_append_inv compress id tele args (enqueue_dev (edev_of d) com tgts) d I) as (d1 & E1 & I1 & S1 & Q1 & C1 & R1 & L1).
+      { intros q Hin. now apply (enqueue_dev_props d com tgts q). }
+      unfold enqueue in *. cbn [map enq_all snd]. rewrite E1.
+      destruct (IH Hr) as (r' & E2 & H2 & N2 & K2 & J2). rewrite E2.
+      set (acts := enqueue_dev (edev_of d) com tgts) in *.
+      set (d2 := match acts with [] => d1 | _ => expedite d1 end).
+      assert (Hrc1 : 0 <= dv_retry_count d1) by (rewrite R1; exact Hrc).
+      assert (H3 : DInvR compress d2 /\ queued d2 = queued d ++ repeat id (length acts)).
+      { unfold d2. destruct acts as [|q0 qs] eqn:Eq.
+        - split; [split; [exact I1|exact Hrc1]|exact Q1].
+        - destruct (expedite_inv compress d1 (conj I1 Hrc1)) as (X1 & X2 & X3). split; [exact X1|]. rewrite X3. exact Q1. }
+      destruct H3 as [X1 X3].
+      eexists. split; [reflexivity|]. split; [constructor; assumption|]. split; [cbn; now rewrite N2|]. split.
+      + intros i. unfold qall in *. cbn [flat_map total fold_right snd]. rewrite !cnt_app, X3, cnt_app, (K2 i).
+        fold (total (map (fun d0 => (ed_name d0, enqueue_dev d0 com tgts)) (map edev_of r))).
+        destruct (Z.eq_dec i id) as [->|Hne]; [rewrite cnt_repeat_eq; lia|rewrite cnt_repeat_neq by congruence; lia].
+      + unfold qall in *. cbn [flat_map]. rewrite X3. intros x Hx. apply in_app_or in Hx as [Hx|Hx].
+        * apply in_app_or in Hx as [Hx|Hx]; [right; apply in_or_app; now left|left; now apply repeat_spec in Hx].
+        * destruct (J2 x Hx) as [->|Hx']; [now left|right; apply in_or_app; now right].
+  Qed.
+
+  Lemma CInv_replace devs devs' : forall cl j x y,
+    nth_error cl j = Some x -> cid y = cid x -> NoDup (map cid cl) -> cli_ok y ->
+    (forall i, cnt i (qall devs') = cnt i (qall devs) + (if Z.eq_dec i (cid x) then pend (dc y) - pend (dc x) else 0)) ->
+    CInv [] devs cl -> CInv [] devs' (upd_nth cl j (fun _ => y)).
+  Proof.
+    unfold CInv. induction cl as [|a r IH]; intros [|j] x y Hn Hy Hnd Ky Hq H; cbn [nth_error upd_nth app] in *; try discriminate.
+    - assert (a = x) by congruence. subst a. inversion H as [|? ? [Hi Hp] Hr]. inversion Hnd as [|? ? Hnotin Hnd'].
+      constructor.
+      + split; [exact Ky|]. rewrite Hy, (Hq (cid x)). destruct (Z.eq_dec (cid x) (cid x)); [lia|congruence].
+      + clear - Hr Hnotin Hq. induction r as [|b r IHr]; [constructor|]. inversion Hr as [|? ? [Hi Hp] Hr']; subst. constructor.
+        * split; [exact Hi|]. rewrite (Hq (cid b)). destruct (Z.eq_dec (cid b) (cid x)) as [E|_]; [exfalso; apply Hnotin; left; exact E|lia].
+        * apply IHr; [exact Hr'|]. intros Hin. apply Hnotin. now right.
+    - inversion H as [|? ? [Hi Hp] Hr]. inversion Hnd as [|? ? Hnotin Hnd']. constructor.
+      + split; [exact Hi|]. rewrite (Hq (cid a)). destruct (Z.eq_dec (cid a) (cid x)) as [E|_]; [|lia].
+        exfalso. apply Hnotin. rewrite E. apply (in_map cid). eapply nth_error_In; exact Hn.
+      + eapply IH; eauto.
+  Qed.
+
+  Definition same_static (st st' : daemon) : Prop :=
+    dm_pipe st' = dm_pipe st /\ dm_seq st' = dm_seq st /\ length (dm_devs st') = length (dm_devs st).
+
+  (* _handle_input: every line is answered or queued; the cross-layer invariant survives each of them *)
+  Lemma handle_input_inv fuel : forall st i ok acc,
+    DPInv st ->
+    exists st' evs, handle_input expand_str ranged_sorted ranged_plain sorted fuel st i ok acc = Ok (st', evs) /\ DPInv st' /\ same_static st st'.
+  Proof.
+    induction fuel as [|f IH]; intros st i ok acc I; cbn [handle_input]; [exists st, acc; split; [reflexivity|split; [exact I|repeat split]]|].
+    destruct (nth_error (dm_clients st) i) as [x|] eqn:En; [|exists st, acc; split; [reflexivity|split; [exact I|repeat split]]].
+    destruct (take_line [] (dc_from x)) as [[line rest]|]; [|exists st, acc; split; [reflexivity|split; [exact I|repeat split]]].
+    destruct (parse (cconf_of st) (dm_store st) (dc x) line) as [[[cf' store'] c'] q] eqn:Ep.
+    assert (Hx : cli_ok x /\ pend (dc x) = cnt (cid x) (qall (dm_devs st))).
+    { pose proof (dp_cinv _ I) as H. unfold CInv in H. rewrite Forall_forall in H. apply (H x). eapply nth_error_In; exact En. }
+    destruct Hx as [Kx Px]. pose proof Kx as [Ix (toks & Ho & Ht)].
+    destruct (parse_input_toks expand_str ranged_sorted ranged_plain sorted _ _ _ _ _ _ _ _ Ep Ix) as (d & Ho' & _ & Ht' & I' & _).
+    pose proof (parse_input_id expand_str ranged_sorted ranged_plain sorted _ _ _ _ _ _ _ _ Ep) as Hid.
+    (* the record that replaces x *)
+    set (x0 := set_dc c' (mkDcli (dc x) rest (dc_to x) (dc_nl x) (S (dc_lines x)))).
+    set (x' := if cl_quit c' && negb (cl_quit (dc x)) && ok then mkDcli (dc x0) (dc_from x0) [] (dc_nl x0) (dc_lines x0) else x0).
+    assert (Kx' : cli_ok x').
+    { assert (K0 : cli_ok x0).
+      { split; [exact I'|]. exists (toks ++ d). unfold x0. cbn [set_dc dc dc_lines]. split; [rewrite Ho', Ho, render_app; reflexivity|].
+        rewrite terminals_app. lia. }
+      unfold x'. destruct (cl_quit c' && negb (cl_quit (dc x)) && ok); [|exact K0]. exact K0. }
+    assert (Hcid : cid x' = cid x).
+    { unfold x', x0, cid. destruct (cl_quit c' && negb (cl_quit (dc x)) && ok); cbn; exact Hid. }
+    assert (Hdc : dc x' = c') by (unfold x', x0; destruct (cl_quit c' && negb (cl_quit (dc x)) && ok); reflexivity).
+    destruct (cl_cmd (dc x)) as [k|] eqn:Ek.
+    - (* a command is in progress: 208 (or 203), nothing is queued *)
+      destruct (parse_busy_q _ _ _ _ _ _ _ _ k Ek Ep) as [-> Hk'].
+      match goal with |- context [handle_input _ _ _ _ f ?s i ok ?a] => destruct (IH s i ok a) as (st' & evs & E & I2 & S2) end.
+      { constructor; cbn [dm_devs dm_clients dm_seq].
+        - exact (dp_devs _ I).
+        - unfold ids. cbn [dm_clients]. rewrite (upd_nth_same cid _ i x); [exact (dp_nodup _ I)|exact En|exact Hcid].
+        - eapply CInv_same_cmd; [exact En|exact Hcid| |exact Kx'|exact (dp_cinv _ I)]. rewrite Hdc, Hk', Ek. reflexivity.
+        - unfold ids. cbn [dm_clients]. rewrite (upd_nth_same cid _ i x); [exact (dp_qseq _ I)|exact En|exact Hcid]. }
+      exists st', evs. split; [exact E|]. split; [exact I2|]. destruct S2 as (S1 & S3 & S4). repeat split; auto.
+    - (* idle *)
+      destruct (parse_idle expand_str ranged_sorted ranged_plain sorted _ _ _ _ _ _ _ _ Ek Ep) as [(-> & Hn' & _ & _)|(k & al & Hk' & _ & Hpk & Htot & _ & _ & _ & _ & Hq)].
+      + (* answered at once *)
+        match goal with |- context [handle_input _ _ _ _ f ?s i ok ?a] => destruct (IH s i ok a) as (st' & evs & E & I2 & S2) end.
+        { constructor; cbn [dm_devs dm_clients dm_seq].
+          - exact (dp_devs _ I).
+          - unfold ids. cbn [dm_clients]. rewrite (upd_nth_same cid _ i x); [exact (dp_nodup _ I)|exact En|exact Hcid].
+          - eapply CInv_same_cmd; [exact En|exact Hcid| |exact Kx'|exact (dp_cinv _ I)]. rewrite Hdc, Hn', Ek. reflexivity.
+          - unfold ids. cbn [dm_clients]. rewrite (upd_nth_same cid _ i x); [exact (dp_qseq _ I)|exact En|exact Hcid]. }
+        exists st', evs. split; [exact E|]. split; [exact I2|]. destruct S2 as (S1 & S3 & S4). repeat split; auto.
+      + (* a command is queued on the devices *)
+        assert (Hval : In (k_com k) (power_coms ++ query_coms)).
+        { apply valid_com_In. unfold cmd_inv in I'. rewrite Hk' in I'. tauto. }
+        assert (Hq' : q = enqueue (map edev_of (dm_devs st)) (k_com k) (k_targets k)).
+        { rewrite Hq. unfold cconf_of. cbn [cf_devs]. now rewrite zip_edevs. }
+        destruct (enq_all_inv (cl_id (dc x)) (cl_tele (dc x)) (length (dm_store st)) (k_com k) (k_targets k) Hval (dm_devs st) (dp_devs _ I))
+          as (devs' & Ee & Hd' & Nd' & Kc & Jc).
+        rewrite <- Hq' in Ee, Kc.
+        assert (Hqne : q <> []) by (intros ->; cbn in Htot; lia).
+        destruct q as [|q0 qr]; [congruence|]. rewrite Ee.
+        match goal with |- context [handle_input _ _ _ _ f ?s i ok ?a] => destruct (IH s i ok a) as (st' & evs & E & I2 & S2) end.
+        { constructor; cbn [dm_devs dm_clients dm_seq].
+          - exact Hd'.
+          - unfold ids. cbn [dm_clients]. rewrite (upd_nth_same cid _ i x); [exact (dp_nodup _ I)|exact En|exact Hcid].
+          - eapply (CInv_replace (dm_devs st) devs' _ i x x'); [exact En|exact Hcid|exact (dp_nodup _ I)|exact Kx'| |exact (dp_cinv _ I)].
+            intros j. rewrite (Kc j). unfold cid. destruct (Z.eq_dec j (cl_id (dc x))); [|reflexivity].
+            rewrite Hdc. unfold pend. rewrite Hk', Ek, Hpk. lia.
+          - unfold ids. cbn [dm_clients]. rewrite (upd_nth_same cid _ i x); [|exact En|exact Hcid].
+            pose proof (dp_qseq _ I) as Hs. rewrite Forall_forall in *. intros z Hz. apply Hs.
+            apply in_app_or in Hz as [Hz|Hz]; [|apply in_or_app; now right].
+            destruct (Jc z Hz) as [<-|Hz']; [|apply in_or_app; now left].
+            apply in_or_app. right. apply (in_map cid). eapply nth_error_In; exact En. }
+        exists st', evs. split; [exact E|]. split; [exact I2|]. destruct S2 as (S1 & S3 & S4). cbn [dm_pipe dm_seq dm_devs] in *. repeat split; auto. lia.
+  Qed.
+
+  Lemma DPInv_upd_client st i x y :
+    nth_error (dm_clients st) i = Some x -> cid y = cid x -> cl_cmd (dc y) = cl_cmd (dc x) -> cl_out (dc y) = cl_out (dc x) ->
+    dc_lines y = dc_lines x -> DPInv st -> DPInv (set_clients st (upd_nth (dm_clients st) i (fun _ => y))).
+  Proof.
+    intros En Hc Hk Ho Hl I.
+    assert (Kx : cli_ok x) by (pose proof (dp_cinv _ I) as H; unfold CInv in H; rewrite Forall_forall in H; apply (H x); eapply nth_error_In; exact En).
+    assert (Ky : cli_ok y).
+    { destruct Kx as [Ix (toks & H1 & H2)]. split; [unfold cmd_inv in *; now rewrite Hk|]. exists toks. unfold busy in *. rewrite Ho, Hk, Hl. auto. }
+    constructor; cbn [set_clients dm_devs dm_clients dm_seq].
+    - exact (dp_devs _ I).
+    - unfold ids, set_clients. cbn [dm_clients]. rewrite (upd_nth_same cid _ i x); [exact (dp_nodup _ I)|exact En|exact Hc].
+    - eapply CInv_same_cmd; [exact En|exact Hc|exact Hk|exact Ky|exact (dp_cinv _ I)].
+    - unfold ids, set_clients. cbn [dm_clients]. rewrite (upd_nth_same cid _ i x); [exact (dp_qseq _ I)|exact En|exact Hc].
+  Qed.
+
+  Lemma Forall_remove_nth {A} (P : A -> Prop) : forall (l : list A) i, Forall P l -> Forall P (remove_nth l i).
+  Proof. induction l as [|a l IH]; intros [|i] H; cbn; auto; inversion H; subst; auto. Qed.
+  Lemma incl_remove_nth {A} : forall (l : list A) i, incl (remove_nth l i) l.
+  Proof.
+    induction l as [|a l IH]; intros [|i]; cbn [remove_nth].
+    - apply incl_refl.
+    - apply incl_refl.
+    - apply incl_tl, incl_refl.
+    - apply incl_cons; [now left|apply incl_tl, IH].
+  Qed.
+  Lemma NoDup_remove_nth {A} : forall (l : list A) i, NoDup l -> NoDup (remove_nth l i).
+  Proof.
+    induction l as [|a l IH]; intros [|i] H; cbn [remove_nth]; auto.
+    - inversion H; assumption.
+    - inversion H as [|? ? Hn Hd]; subst. constructor; [|apply IH; exact Hd].
+      intros Hin. apply Hn. eapply incl_remove_nth; exact Hin.
+  Qed.
+
+  Lemma DPInv_remove st i : DPInv st -> DPInv (set_clients st (remove_nth (dm_clients st) i)).
+  Proof.
+    intros I. constructor; cbn [set_clients dm_devs dm_clients dm_seq].
+    - exact (dp_devs _ I).
+    - unfold ids, set_clients. cbn [dm_clients]. rewrite remove_nth_map. apply NoDup_remove_nth. exact (dp_nodup _ I).
+    - unfold CInv. apply Forall_remove_nth. exact (dp_cinv _ I).
+    - pose proof (dp_qseq _ I) as H. rewrite Forall_forall in *. intros z Hz. apply H. apply in_app_or in Hz as [Hz|Hz]; apply in_or_app; [now left|right].
+      unfold ids, set_clients in *. cbn [dm_clients] in Hz. rewrite remove_nth_map in Hz. eapply incl_remove_nth; exact Hz.
+  Qed.
+
+  Lemma cli_one_inv st i ci : DPInv st ->
+    exists st' evs dead, cli_one expand_str ranged_sorted ranged_plain sorted st i ci = Ok (st', evs, dead) /\ DPInv st' /\ same_static st st'.
+  Proof.
+    intros I. unfold cli_one. destruct (nth_error (dm_clients st) i) as [x|] eqn:En; [|exists st, [], false; split; [reflexivity|split; [exact I|repeat split]]].
+    destruct (ci_bad ci); [exists st, [], true; split; [reflexivity|split; [exact I|repeat split]]|].
+    set (x1 := if ci_in ci then _ else x).
+    match goal with |- context [let '(x2, w) := ?e in _] => destruct e as [x2 w] eqn:E2 end.
+    assert (H2 : cid x2 = cid x /\ cl_cmd (dc x2) = cl_cmd (dc x) /\ cl_out (dc x2) = cl_out (dc x) /\ dc_lines x2 = dc_lines x).
+    { assert (H1 : cid x1 = cid x /\ cl_cmd (dc x1) = cl_cmd (dc x) /\ cl_out (dc x1) = cl_out (dc x) /\ dc_lines x1 = dc_lines x).
+      { unfold x1. destruct (ci_in ci); [destruct (ci_read ci) as [[|b r]|]|]; cbn; auto. }
+      destruct (ci_out ci); [destruct (ci_wrote ci)|]; inversion E2; subst; cbn; exact H1. }
+    destruct H2 as (A1 & A2 & A3 & A4).
+    pose proof (DPInv_upd_client st i x x2 En A1 A2 A3 A4 I) as I1.
+    match goal with |- context [handle_input _ _ _ _ ?f ?s i ?ok ?a] => destruct (handle_input_inv f s i ok a I1) as (st2 & evs & E & I2 & S2) end.
+    rewrite E. eexists _, _, _. split; [reflexivity|]. split; [exact I2|]. exact S2.
+  Qed.
+
+  Lemma cli_loop_inv : forall cins st i acc, DPInv st ->
+    exists st' evs, cli_loop expand_str ranged_sorted ranged_plain sorted st i cins acc = Ok (st', evs) /\ DPInv st' /\ same_static st st'.
+  Proof.
+    induction cins as [|ci r IH]; intros st i acc I; cbn [cli_loop]; [exists st, acc; split; [reflexivity|split; [exact I|repeat split]]|].
+    destruct (cli_one_inv st i ci I) as (st1 & evs1 & dead & E1 & I1 & S1). rewrite E1.
+    destruct dead.
+    - match goal with |- context [cli_loop _ _ _ _ ?s i r ?a] => destruct (IH s i a (DPInv_remove st1 i I1)) as (st' & evs & E & I' & S') end.
+      exists st', evs. split; [exact E|]. split; [exact I'|]. destruct S1 as (B1 & B2 & B3), S' as (C1 & C2 & C3). cbn [set_clients dm_pipe dm_seq dm_devs] in *. repeat split; congruence.
+    - destruct (IH st1 (S i) (acc ++ evs1) I1) as (st' & evs & E & I' & S'). exists st', evs. split; [exact E|]. split; [exact I'|].
+      destruct S1 as (B1 & B2 & B3), S' as (C1 & C2 & C3). repeat split; congruence.
+  Qed.
+
+  (* one pass of the select loop: from a state that satisfies the cross-layer invariant, with coprocess devices only,
+     the pass never aborts / exits / corrupts memory, and re-establishes the invariant *)
+  Theorem dstep_inv st r : DPInv st -> all_pipe st -> pins_plain (r_dev r) -> 1 <= dm_seq st < INT_MAX ->
+    match dstep expand_str ranged_sorted ranged_plain sorted rmatch compress short_circuit st r with
+    | Ok (st', o) => DPInv st' /\ all_pipe st' /\ (forall t, do_tmo o = Some t -> 0 < t) /\ length (dm_devs st') = length (dm_devs st) /\
+                     dm_seq st <= dm_seq st' <= dm_seq st + 1
+    | Hang _ => True
+    | _ => False
+    end.
+  Proof.
+    intros I Hpipe Hpl Hseq. unfold dstep, cli_post_poll.
+    set (sa := if r_accept r then _ else _).
+    assert (Ha : DPInv (fst sa) /\ all_pipe (fst sa) /\ length (dm_devs (fst sa)) = length (dm_devs st) /\ dm_seq st <= dm_seq (fst sa) <= dm_seq st + 1).
+    { unfold sa. destruct (r_accept r); [|cbn [fst]; split; [exact I|split; [exact Hpipe|split; [reflexivity|lia]]]].
+      unfold next_id. fold INT_MAX. destruct (dm_seq st <? INT_MAX) eqn:E; [|apply Z.ltb_ge in E; lia]. cbn [fst].
+      split; [|split; [exact Hpipe|split; [reflexivity|cbn [dm_seq]; lia]]].
+      pose proof (dp_qseq _ I) as Hq. rewrite Forall_forall in Hq.
+      constructor; cbn [dm_devs dm_clients dm_seq].
+      - exact (dp_devs _ I).
+      - unfold ids. cbn [dm_clients]. rewrite map_app. cbn [map]. apply NoDup_app_single_fresh; [exact (dp_nodup _ I)|].
+        intros Hin. unfold cid in Hin. cbn in Hin. specialize (Hq (dm_seq st)). assert (1 <= dm_seq st < dm_seq st) by (apply Hq; apply in_or_app; now right). lia.
+      - unfold CInv. apply Forall_app. split; [exact (dp_cinv _ I)|]. constructor; [|constructor]. split.
+        + split; [exact Logic.I|]. exists [TLine 1 (dm_version st); TPrompt]. cbn [dc new_client cl_out dc_lines busy cl_cmd].
+          split; [rewrite fmt_version; cbn [render flat_map render1]; now rewrite !app_nil_r|reflexivity].
+        + cbn [dc new_client pend cl_cmd app]. unfold cid. cbn [dc new_client cl_id]. symmetry. apply cnt_notin.
+          intros Hin. assert (1 <= dm_seq st < dm_seq st) by (apply Hq; apply in_or_app; now left). lia.
+      - rewrite Forall_forall. intros z Hz. unfold ids in Hz. cbn [dm_clients] in Hz. rewrite map_app in Hz. cbn [map] in Hz.
+        rewrite app_assoc in Hz. apply in_app_or in Hz as [Hz|[<-|[]]].
+        + specialize (Hq z Hz). lia.
+        + unfold cid. cbn. lia. }
+    destruct sa as [sta e1]. cbn [fst] in Ha. destruct Ha as (Ia & Pa & La & Sa).
+    destruct (cli_loop_inv (pad_cins (length (dm_clients sta)) (r_cli r)) sta 0 e1 Ia) as (stb & e2 & El & Ib & Sb). rewrite El.
+    destruct Sb as (B1 & B2 & B3).
+    assert (Pb : all_pipe stb) by (unfold all_pipe; rewrite B1; exact Pa).
+    pose proof (dev_loop_inv (length (dm_devs stb)) (r_now r) stb 0 (r_dev r) None [] Ib Pb Hpl) as Hd.
+    assert (Hn : tmo_pos None) by (intros x Hx; discriminate). specialize (Hd Hn).
+    destruct (dev_loop ranged_sorted rmatch compress short_circuit (length (dm_devs stb)) (r_now r) stb 0 (r_dev r) None []) as [[[stc tmo] e3]| | | |]; try contradiction; [|exact Logic.I].
+    destruct Hd as (Ic & Pc & Tc & _ & Sc & Lc & _). cbn [do_tmo]. split; [exact Ic|]. split; [exact Pc|]. split; [exact Tc|]. split; lia.
+  Qed.
+
+  (* ---------------------------------------------------------------- every history *)
+  Definition rounds_plain (rs : list round) : Prop := Forall (fun r => pins_plain (r_dev r)) rs.
+
+  Theorem drun_inv : forall rs st acc, DPInv st -> all_pipe st -> rounds_plain rs ->
+    1 <= dm_seq st -> dm_seq st + Z.of_nat (length rs) <= INT_MAX ->
+    match drun expand_str ranged_sorted ranged_plain sorted rmatch compress short_circuit st rs acc with
+    | Ok (st', outs) => DPInv st' /\ all_pipe st' /\ length (dm_devs st') = length (dm_devs st) /\
+                        exists new, outs = acc ++ new /\ Forall (fun o => forall t, do_tmo o = Some t -> 0 < t) new
+    | Hang _ => True
+    | _ => False
+    end.
+  Proof.
+    induction rs as [|r rs IH]; intros st acc I Hp Hr H1 Hn; cbn [drun].
+    - split; [exact I|]. split; [exact Hp|]. split; [reflexivity|]. exists []. split; [now rewrite app_nil_r|constructor].
+    - inversion Hr as [|? ? Hr1 Hr2]; subst. cbn [length] in Hn.
+      pose proof (dstep_inv st r I Hp Hr1 ltac:(lia)) as Hs.
+      destruct (dstep expand_str ranged_sorted ranged_plain sorted rmatch compress short_circuit st r) as [[st1 o]| | | |]; try contradiction; [|exact Logic.I].
+      destruct Hs as (I1 & P1 & T1 & L1 & S1).
+      specialize (IH st1 (acc ++ [o]) I1 P1 Hr2 ltac:(lia) ltac:(lia)).
+      destruct (drun expand_str ranged_sorted ranged_plain sorted rmatch compress short_circuit st1 rs (acc ++ [o])) as [[st' outs]| | | |]; try contradiction; [|exact Logic.I].
+      destruct IH as (I' & P' & L' & new & -> & F'). split; [exact I'|]. split; [exact P'|]. split; [congruence|].
+      exists (o :: new). split; [now rewrite <- app_assoc|]. constructor; assumption.
+  Qed.
+
+  (* start-up: no client yet, devices as the parser leaves them *)
+  Definition boot (st : daemon) : Prop :=
+    dm_clients st = [] /\ dm_seq st = 1 /\
+    Forall (fun d => DInvR compress d /\ dv_cstate d = DEV_NOT_CONNECTED /\ queued d = []) (dm_devs st).
+
+  Lemma init_loop_inv now : forall devs plans i,
+    Forall (fun d => DInvR compress d /\ dv_cstate d = DEV_NOT_CONNECTED /\ queued d = []) devs ->
+    exists devs' evs, init_loop now devs plans i = Ok (devs', evs) /\ DevsInv devs' /\ qall devs' = [] /\ length devs' = length devs.
+  Proof.
+    induction devs as [|d r IH]; intros plans i H; cbn [init_loop].
+    - exists [], []. repeat split; auto.
+    - inversion H as [|? ? ([I Hrc] & Hc & Hq) Hr]; subst.
+      destruct (connect_inv compress now d (hd [] plans) I Hc) as (d1 & pl & E1 & _ & I1 & _ & Q1 & _ & R1 & _).
+      rewrite E1. destruct (IH (tl plans) (S i) Hr) as (r' & e2 & E2 & H2 & Q2 & N2). rewrite E2.
+      eexists _, _. split; [reflexivity|]. split; [constructor; [split; [exact I1|lia]|exact H2]|].
+      split; [unfold qall in *; cbn [flat_map]; now rewrite Q1, Hq, Q2|cbn; now rewrite N2].
+  Qed.
+
+  Theorem dinit_inv st now plans : boot st ->
+    exists st1 o, dinit st now plans = Ok (st1, o) /\ DPInv st1 /\ dm_seq st1 = 1 /\ dm_pipe st1 = dm_pipe st /\ dm_clients st1 = [] /\
+                  length (dm_devs st1) = length (dm_devs st).
+  Proof.
+    intros (Hc & Hs & Hd). unfold dinit. destruct (init_loop_inv now (dm_devs st) plans 0 Hd) as (devs' & evs & E & H1 & H2 & H3).
+    rewrite E. eexists _, _. split; [reflexivity|]. cbn [dm_seq dm_pipe dm_clients dm_devs]. repeat split; auto.
+    - unfold ids. cbn [dm_clients]. rewrite Hc. constructor.
+    - cbn [dm_clients]. rewrite Hc. constructor.
+    - cbn [dm_devs dm_seq]. unfold ids. cbn [dm_clients]. rewrite H2, Hc. constructor.
+  Qed.
+
+  (* the statements C04 / C02 / C06 / C07 / C11 quote: from start-up, over every history of passes *)
+  Theorem daemon_invariant st now plans rs : boot st -> all_pipe st -> rounds_plain rs -> Z.of_nat (length rs) < INT_MAX - 1 ->
+    exists st1 o, dinit st now plans = Ok (st1, o) /\
+      match drun expand_str ranged_sorted ranged_plain sorted rmatch compress short_circuit st1 rs [] with
+      | Ok (st', outs) =>
+          (* (1) pending = number of queued actions of that client; (2) output so far = one terminal reply per line handed to
+             _parse_input, minus the command in progress; (3) unique ids; (4) every device satisfies the device-layer invariant *)
+          Forall (fun x => cli_ok x /\ pend (dc x) = cnt (cid x) (qall (dm_devs st'))) (dm_clients st') /\
+          NoDup (ids st') /\ DevsInv (dm_devs st') /\
+          Forall (fun o => forall t, do_tmo o = Some t -> 0 < t) outs
+      | Hang _ => True
+      | _ => False                (* never Exit / Abort / MemErr: in particular _act_finish always finds its command *)
+      end.
+  Proof.
+    intros Hb Hp Hr Hn. destruct (dinit_inv st now plans Hb) as (st1 & o & E & I1 & S1 & P1 & _ & _).
+    exists st1, o. split; [exact E|].
+    assert (Hp1 : all_pipe st1) by (unfold all_pipe; rewrite P1; exact Hp).
+    pose proof (drun_inv rs st1 [] I1 Hp1 Hr ltac:(lia) ltac:(rewrite S1; unfold INT_MAX in *; lia)) as H.
+    destruct (drun expand_str ranged_sorted ranged_plain sorted rmatch compress short_circuit st1 rs []) as [[st' outs]| | | |]; try contradiction; [|exact Logic.I].
+    destruct H as (I' & _ & _ & new & -> & F). cbn [app]. split; [exact (dp_cinv _ I')|]. split; [exact (dp_nodup _ I')|]. split; [exact (dp_devs _ I')|exact F].
   Qed.
 End P.
